@@ -58,6 +58,15 @@ CLAIMED["C07"] = ("Partial proof at the mechanism level: the plain-layout split 
  "Trusted: internal/sm2ec point methods, internal/bigmod, crypto/elliptic, randomPoint (assumed frame), cryptobyte readers, sm3.Kdf length contract (proved under C01).",
  "DESIGN.md §4 C07")
 
+CLAIMED["C06"] = ("Proof over assumed modular and group arithmetic (ghost integer values of bigmod.Nat, ghost group elements of SM2P256Point; trusted contracts): "
+ "verifySM2EC returns true only if the parsed r and s are in [1, n-1], t = r+s mod n is not zero, the computed point is not the point at infinity and r == (e + x1) mod n for "
+ "(x1, y1) = [s]G + [t]P - the GB/T 32918.2 verification equation; signSM2EC hands the encoder r = (e + x1) mod n and s = (1+d)^-1 (k - r d) mod n with the retry conditions "
+ "r != 0, r + k != 0 (mod n), s != 0 (loop invariant over the cached inverse and e); the cached (d+1)^-1 is returned non-nil or with an error in every call history "
+ "(sync.Once already spent or not - both histories are explored; found D5). Not decided: the algebraic identity that makes honest signatures verify (group law), the arithmetic itself, "
+ "strict DER of the parser (cryptobyte, assumed), legacy (non-SM2 curve) sign/verify, ZA digest computation.",
+ "Trusted: every internal/bigmod and internal/sm2ec method used (contracts in their zz_contracts_verif.go, marked trusted), hashToNat, randomPoint, cryptobyte readers, crypto/elliptic.",
+ "DESIGN.md §4 C06")
+
 NOT_APPLICABLE = {
 }
 
